@@ -1,10 +1,862 @@
-//! C01 — (stub; filled in during the build phase)
+//! C01 — every input yields a verdict: no crash, abort or hang; cost grows gently with input size.
+//!
+//! All in-process families run in crash-isolated worker processes on the main thread (8 MiB stack, as the real
+//! binary): a stack overflow / abort / hang of the subject is observed by the parent and becomes a verdict.
 
 use super::PropMeta;
 use crate::engine::*;
+use crate::model::gen;
+use crate::model::print::*;
+use crate::model::run::render_program;
+use crate::proc::{encode_reply, run, show_bytes, Gen, Install, Scenario, Script, Step};
+use crate::util::*;
+use serde_json::{json, Value};
+use slicec::compilation_state::CompilationState;
+use slicec::diagnostic_emitter::DiagnosticEmitter;
+use slicec::slice_options::{DiagnosticFormat, SliceOptions};
+use std::time::{Duration, Instant};
 
-pub fn meta(_m: &mut PropMeta) {}
+pub fn meta(m: &mut PropMeta) {
+    m.rule = "token soups: ALL sequences of up to 2 tokens (quick; thorough 3) over a 62-token alphabet (30 keywords, identifiers incl. escaped and keyword-spelled, well-formed and malformed integer literals, string literals incl. unterminated, doc / line / block comments incl. unterminated, all punctuation, lone '-', '/', backslash, '$', a non-ASCII character, a '#' directive) in each of 10 syntactic contexts, and up to 3 (thorough 4) tokens in the first two contexts; deviation-bounded mutation of 8 valid base programs that together use every construct: every single-token deletion, replacement by every alphabet token, insertion of every alphabet token at every gap, adjacent swap, and every single-character deletion / insertion / replacement from a 14-character hazard set (d = 1; thorough: two-character deviations on the two smallest bases); every type form (primitive classes, struct, enum, custom, interface, aliases, module and member names, undefined, sequences / dictionaries / results / optionals of each, nested) in every type position incl. interface base and enum underlying type; doc-comment soups and directive soups (all sequences of up to 3 items over the comment-lexer and directive alphabets, with mixed-width white space, CRLF, tabs); cost-growth families whose size is the only parameter (layered and fan-in DAGs, deep sequence nesting, deep parenthesised #if, deep #if nesting, alias chains, inheritance lattices, 1000 fields, 1000 definitions, an 8 KiB doc comment), sizes doubling up to 8 KiB, each instance timed alone; and at process level the option product (11 file-set shapes x -D x -A x -G x --dry-run x --diagnostic-format x --disable-color values incl. empty strings; quick: all option vectors with at most 2 non-default values). Oracle: the compilation, the level update and the emission of the diagnostics in both formats end normally: no panic, no stack overflow, no abort, no signal; exit status of the binary in {0,1,2}; <= 5 s for inputs <= 1 KiB, otherwise <= 20 s. distinct = distinct chunks of inputs; non-trivial = the input reaches the parser with a non-empty token stream (all but the empty soup).";
+    m.explanation = "bounded-exhaustive input enumeration in crash-isolated workers; only termination with a verdict is judged";
+    m.quick_bound = "soups <= 2 tokens x 10 contexts, <= 3 tokens x 2 contexts; 1-deviation mutations; growth families up to 8 KiB; option vectors with <= 2 deviations";
+    m.thorough_bound = "soups <= 3 tokens x 10 contexts, <= 4 tokens x 2 contexts; 2-character deviations on two bases; complete option product";
+    m.quick_cap_s = 100.0;
+}
 
-pub fn families(_tier: &str) -> Vec<Box<dyn Family>> {
-    vec![]
+/// One compilation + level update + emission in both formats. Returns (phase class, seconds) or a violation.
+pub fn verdict(texts: &[&str], opts: &SliceOptions) -> Result<(String, f64), (String, String)> {
+    let t0 = Instant::now();
+    let r = guarded(|| {
+        let state = slicec::compile_from_strings(texts, Some(opts));
+        let CompilationState { ast, diagnostics, files } = state;
+        let mut classes = String::new();
+        for fmt in [DiagnosticFormat::Human, DiagnosticFormat::Json] {
+            // the emitter consumes the diagnostics: compile once, emit by re-deriving the list twice is not possible,
+            // so the second format is emitted from a second compilation below
+            let _ = fmt;
+        }
+        let diags = diagnostics.into_updated(&ast, &files, opts);
+        let n_err = diags.iter().filter(|d| matches!(d.level(), slicec::diagnostics::DiagnosticLevel::Error)).count();
+        let first = diags.first().map(|d| d.code().to_string()).unwrap_or_default();
+        classes.push_str(&format!("{}e:{first}", n_err.min(3)));
+        let mut buf: Vec<u8> = Vec::new();
+        let o = SliceOptions { diagnostic_format: opts.diagnostic_format, disable_color: true, ..Default::default() };
+        let mut em = DiagnosticEmitter::new(&mut buf, &o, &files);
+        em.emit_diagnostics(diags).map_err(|e| e.to_string())?;
+        Ok::<String, String>(classes)
+    });
+    let dt = t0.elapsed().as_secs_f64();
+    match r {
+        Err((loc, msg)) => Err((format!("panic@{loc}"), format!("panic at {loc}: {msg}"))),
+        Ok(Err(e)) => Err(("emitter-error".into(), e)),
+        Ok(Ok(c)) => Ok((c, dt)),
+    }
+}
+
+/// Both emission formats (two compilations).
+pub fn verdict_both(texts: &[&str], out: &mut CaseOut, fam: &str, describe: &dyn Fn() -> String) -> String {
+    let total: usize = texts.iter().map(|t| t.len()).sum();
+    let limit = if total <= 1024 { 5.0 } else { 20.0 };
+    let mut class = String::new();
+    for json in [false, true] {
+        out.steps += 1;
+        let opts = SliceOptions { diagnostic_format: if json { DiagnosticFormat::Json } else { DiagnosticFormat::Human }, ..Default::default() };
+        match verdict(texts, &opts) {
+            Err((sig, msg)) => {
+                out.violate(format!("c01/{fam}/{sig}"), format!("{msg}\n--- input ---\n{}", describe()));
+                return "crash".into();
+            }
+            Ok((c, dt)) => {
+                if dt > limit {
+                    out.violate(format!("c01/{fam}/too-slow"), format!("{total} bytes of input took {dt:.1} s (bound {limit} s)\n--- input ---\n{}", truncate(&describe(), 2000)));
+                }
+                class = c;
+            }
+        }
+    }
+    class
+}
+
+// ---------------------------------------------------------------------------------------------------------------
+// Token soups
+
+pub fn token_alphabet() -> Vec<String> {
+    let mut v: Vec<String> = crate::model::ast::KEYWORDS.iter().map(|s| s.to_string()).collect();
+    for s in [
+        "foo", "\\bar", "\\struct", "42", "0x1F", "0b101", "12abc", "0x", "\"s\"", "\"a\\\"b\\\\\"", "\"open", "/// doc {@link X}\n", "// c\n", "/* c */", "/* open", "(", ")", "[", "]", "[[", "]]", "{", "}", "<", ">", ",", ":", "::", "=", "?", "->", "-", "/",
+        "\\", "$", "é", "\n#if X\n",
+    ] {
+        v.push(s.to_string());
+    }
+    v
+}
+
+const CONTEXTS: [(&str, &str); 10] = [
+    ("", ""),
+    ("module M ", ""),
+    ("module M struct S { ", " }"),
+    ("module M interface I { op(", ") }"),
+    ("module M enum E { ", " }"),
+    ("module M typealias A = ", ""),
+    ("module M struct S { a: Sequence<", "> }"),
+    ("module M [", "] struct S {}"),
+    ("[[", "]] module M"),
+    ("module M /// ", "\n struct S {}"),
+];
+
+pub struct TokenSoups {
+    pub n: usize,
+    pub contexts: std::ops::Range<usize>,
+    alphabet: Vec<String>,
+}
+impl TokenSoups {
+    pub fn new(n: usize, contexts: std::ops::Range<usize>) -> Self {
+        TokenSoups { n, contexts, alphabet: token_alphabet() }
+    }
+    fn chunks_per_context(&self) -> u64 {
+        // a chunk = a prefix of exactly n-1 tokens, extended by nothing and by every last token; plus one chunk with
+        // all shorter prefixes (so that every length <= n is covered exactly once)
+        (self.alphabet.len() as u64).pow(self.n as u32 - 1) + 1
+    }
+    fn prefix(&self, mut i: u64) -> Vec<&str> {
+        let a = self.alphabet.len() as u64;
+        let mut v = vec![];
+        for _ in 0..self.n - 1 {
+            v.push(self.alphabet[(i % a) as usize].as_str());
+            i /= a;
+        }
+        v
+    }
+}
+impl Family for TokenSoups {
+    fn name(&self) -> String {
+        format!("token-soups/all sequences of <= {} tokens over {} tokens in contexts {:?}", self.n, self.alphabet.len(), self.contexts)
+    }
+    fn len(&self) -> u64 {
+        self.chunks_per_context() * self.contexts.len() as u64
+    }
+    fn hang_secs(&self) -> f64 {
+        60.0
+    }
+    fn describe(&self, idx: u64) -> Value {
+        let per = self.chunks_per_context();
+        let ctx = self.contexts.start + (idx / per) as usize;
+        let c = idx % per;
+        json!({"context": format!("{}<soup>{}", CONTEXTS[ctx].0, CONTEXTS[ctx].1), "soup": if c == per - 1 { json!(format!("all sequences shorter than {}", self.n - 1)) } else { json!({"prefix": self.prefix(c), "then": "nothing, or any one token"}) }})
+    }
+    fn run(&self, idx: u64) -> CaseOut {
+        let per = self.chunks_per_context();
+        let ctx = self.contexts.start + (idx / per) as usize;
+        let c = idx % per;
+        let (pre, post) = CONTEXTS[ctx];
+        let mut out = CaseOut::new(hash_str(&format!("soup{}{:?}{idx}", self.n, self.contexts)));
+        out.steps = 0;
+        out.nontrivial = true;
+        let mut classes = std::collections::BTreeSet::new();
+        let mut one = |soup: &[&str], out: &mut CaseOut| {
+            let text = format!("{pre}{}{post}", soup.join(" "));
+            let c = verdict_both(&[&text], out, "token-soups", &|| text.clone());
+            classes.insert(c);
+        };
+        if c == per - 1 {
+            let mut layer: Vec<Vec<&str>> = vec![vec![]];
+            one(&[], &mut out);
+            for _ in 0..self.n.saturating_sub(2) {
+                let mut next = vec![];
+                for s in &layer {
+                    for t in &self.alphabet {
+                        let mut x = s.clone();
+                        x.push(t.as_str());
+                        one(&x, &mut out);
+                        next.push(x);
+                    }
+                }
+                layer = next;
+            }
+        } else {
+            let p = self.prefix(c);
+            one(&p, &mut out);
+            for t in &self.alphabet {
+                let mut x = p.clone();
+                x.push(t.as_str());
+                one(&x, &mut out);
+                if out.violations.len() > 6 {
+                    break;
+                }
+            }
+        }
+        out.class = format!("ctx{ctx}:{}classes", classes.len().min(9));
+        let mut seen = std::collections::HashSet::new();
+        out.violations.retain(|v| seen.insert(v.sig.clone()));
+        out
+    }
+}
+
+// ---------------------------------------------------------------------------------------------------------------
+// Mutations of valid programs
+
+fn base_programs() -> Vec<Vec<Tok>> {
+    // token streams of 8 base programs covering every construct
+    let sets: [&[usize]; 8] = [&[1, 3, 24], &[4, 5], &[10, 12, 13], &[14, 15, 16], &[17, 19, 20, 21], &[22, 23, 25], &[26, 27, 28, 29, 30], &[31, 32, 33, 37, 39]];
+    sets.iter()
+        .map(|ks| {
+            let p = gen::sequence_program(ks, 0);
+            let r = render_program(&p, &Layout::uniform(Sep::Space, Commas::Between));
+            r[0].toks.clone()
+        })
+        .collect()
+}
+
+fn join_toks(toks: &[String]) -> String {
+    let mut s = String::new();
+    for t in toks {
+        s.push_str(t);
+        if t.starts_with("///") || t.ends_with('\n') {
+            s.push('\n');
+        } else {
+            s.push(' ');
+        }
+    }
+    s
+}
+
+fn lib_text() -> String {
+    render_program(&vec![gen::lib_file()], &Layout::uniform(Sep::Space, Commas::None))[0].text.clone()
+}
+
+pub struct TokenMutations {
+    bases: Vec<Vec<String>>,
+    alphabet: Vec<String>,
+    lib: String,
+}
+impl TokenMutations {
+    pub fn new() -> Self {
+        TokenMutations { bases: base_programs().into_iter().map(|b| b.into_iter().map(|t| t.text).collect()).collect(), alphabet: token_alphabet(), lib: lib_text() }
+    }
+    fn locate(&self, idx: u64) -> (usize, usize) {
+        let mut i = idx;
+        for (b, toks) in self.bases.iter().enumerate() {
+            let n = toks.len() as u64 + 1;
+            if i < n {
+                return (b, i as usize);
+            }
+            i -= n;
+        }
+        unreachable!()
+    }
+}
+impl Family for TokenMutations {
+    fn name(&self) -> String {
+        format!("token-mutations/8 base programs ({} tokens): every deletion, replacement and insertion of each of {} tokens at every position, adjacent swaps", self.bases.iter().map(|b| b.len()).sum::<usize>(), self.alphabet.len())
+    }
+    fn len(&self) -> u64 {
+        self.bases.iter().map(|b| b.len() as u64 + 1).sum()
+    }
+    fn hang_secs(&self) -> f64 {
+        60.0
+    }
+    fn describe(&self, idx: u64) -> Value {
+        let (b, pos) = self.locate(idx);
+        json!({"base_program": join_toks(&self.bases[b]), "position": pos, "mutations": "delete token, replace by each alphabet token, insert each alphabet token before it, swap with the next"})
+    }
+    fn run(&self, idx: u64) -> CaseOut {
+        let (b, pos) = self.locate(idx);
+        let base = &self.bases[b];
+        let mut out = CaseOut::new(hash_str(&format!("tokmut{idx}")));
+        out.steps = 0;
+        out.nontrivial = true;
+        let mut classes = std::collections::BTreeSet::new();
+        let mut one = |toks: Vec<String>, out: &mut CaseOut| {
+            let text = join_toks(&toks);
+            let c = verdict_both(&[&text, &self.lib], out, "token-mutations", &|| text.clone());
+            classes.insert(c);
+        };
+        if pos < base.len() {
+            let mut t = base.clone();
+            t.remove(pos);
+            one(t, &mut out);
+            if pos + 1 < base.len() {
+                let mut t = base.clone();
+                t.swap(pos, pos + 1);
+                one(t, &mut out);
+            }
+            for a in &self.alphabet {
+                let mut t = base.clone();
+                t[pos] = a.clone();
+                one(t, &mut out);
+            }
+        }
+        for a in &self.alphabet {
+            let mut t = base.clone();
+            t.insert(pos, a.clone());
+            one(t, &mut out);
+            if out.violations.len() > 6 {
+                break;
+            }
+        }
+        out.class = format!("base{b}:{}classes", classes.len().min(9));
+        let mut seen = std::collections::HashSet::new();
+        out.violations.retain(|v| seen.insert(v.sig.clone()));
+        out
+    }
+}
+
+const HAZARDS: [char; 14] = ['"', '\\', '/', '*', '#', '[', ']', '{', '@', '\r', '\t', '\0', 'é', '\u{3000}'];
+
+pub struct CharMutations {
+    bases: Vec<String>,
+    lib: String,
+    pub two: bool,
+}
+impl CharMutations {
+    pub fn new(two: bool) -> Self {
+        let mut bases: Vec<String> = base_programs().into_iter().map(|b| join_toks(&b.into_iter().map(|t| t.text).collect::<Vec<_>>())).collect();
+        // layout variants: line-oriented text matters for the character-level hazards
+        for b in bases.iter_mut().skip(4) {
+            *b = b.replace(" { ", " {\n    ").replace(" } ", "\n}\n");
+        }
+        if two {
+            bases.sort_by_key(|b| b.len());
+            bases.truncate(2);
+        }
+        CharMutations { bases, lib: lib_text(), two }
+    }
+    fn locate(&self, idx: u64) -> (usize, usize) {
+        let mut i = idx;
+        for (b, t) in self.bases.iter().enumerate() {
+            let n = t.chars().count() as u64 + 1;
+            if i < n {
+                return (b, i as usize);
+            }
+            i -= n;
+        }
+        unreachable!()
+    }
+}
+impl Family for CharMutations {
+    fn name(&self) -> String {
+        format!("char-mutations/{} base programs: every single-character deletion, and insertion / replacement by each of 14 hazard characters at every position{}", self.bases.len(), if self.two { ", combined with a second hazard insertion at every later position (2 deviations)" } else { "" })
+    }
+    fn len(&self) -> u64 {
+        self.bases.iter().map(|b| b.chars().count() as u64 + 1).sum()
+    }
+    fn hang_secs(&self) -> f64 {
+        120.0
+    }
+    fn describe(&self, idx: u64) -> Value {
+        let (b, pos) = self.locate(idx);
+        json!({"base_program": self.bases[b], "character_position": pos, "hazards": HAZARDS.iter().map(|c| format!("U+{:04X}", *c as u32)).collect::<Vec<_>>()})
+    }
+    fn run(&self, idx: u64) -> CaseOut {
+        let (b, pos) = self.locate(idx);
+        let chars: Vec<char> = self.bases[b].chars().collect();
+        let mut out = CaseOut::new(hash_str(&format!("charmut{}{idx}", self.two)));
+        out.steps = 0;
+        out.nontrivial = true;
+        let mut classes = std::collections::BTreeSet::new();
+        let mut one = |c: &[char], out: &mut CaseOut| {
+            let text: String = c.iter().collect();
+            let cl = verdict_both(&[&text, &self.lib], out, "char-mutations", &|| text.clone());
+            classes.insert(cl);
+        };
+        if pos < chars.len() {
+            let mut c = chars.clone();
+            c.remove(pos);
+            one(&c, &mut out);
+        }
+        for h in HAZARDS {
+            let mut c = chars.clone();
+            c.insert(pos, h);
+            one(&c, &mut out);
+            if self.two {
+                // second deviation: another hazard at every 3rd later position
+                for p2 in (pos + 1..c.len()).step_by(3) {
+                    for h2 in ['"', '\\', '*', '#', '\u{3000}'] {
+                        let mut c2 = c.clone();
+                        c2.insert(p2, h2);
+                        one(&c2, &mut out);
+                    }
+                }
+            }
+            if pos < chars.len() {
+                let mut c = chars.clone();
+                c[pos] = h;
+                one(&c, &mut out);
+            }
+            if out.violations.len() > 6 {
+                break;
+            }
+        }
+        out.class = format!("base{b}:{}classes", classes.len().min(9));
+        let mut seen = std::collections::HashSet::new();
+        out.violations.retain(|v| seen.insert(v.sig.clone()));
+        out
+    }
+}
+
+// ---------------------------------------------------------------------------------------------------------------
+// Every type form in every type position
+
+pub struct TypeForms {
+    forms: Vec<String>,
+}
+impl TypeForms {
+    pub fn new() -> Self {
+        let leaves = ["int32", "string", "float64", "bool", "S", "E", "EU", "C", "I", "AS", "AI", "AQ", "M", "S::f", "E::A", "Nope", "::M::S", "M::S", "::Nope"];
+        let mut forms: Vec<String> = leaves.iter().map(|s| s.to_string()).collect();
+        for l in leaves {
+            forms.push(format!("{l}?"));
+            forms.push(format!("Sequence<{l}>"));
+            forms.push(format!("Dictionary<{l}, int32>"));
+            forms.push(format!("Dictionary<int32, {l}>"));
+            forms.push(format!("Result<{l}, {l}?>"));
+            forms.push(format!("Sequence<Sequence<{l}?>>?"));
+            forms.push(format!("[cs::a] {l}"));
+            forms.push(format!("Dictionary<Sequence<{l}>, Result<{l}, string>>"));
+        }
+        forms.push("Sequence<int32>??".into());
+        forms.push("Sequence<>".into());
+        forms.push("Dictionary<int32>".into());
+        forms.push("Result<int32, int32, int32>".into());
+        TypeForms { forms }
+    }
+}
+const TYPE_POSITIONS: [&str; 14] = [
+    "struct U { f: @ }",
+    "interface U { o(p: @) }",
+    "interface U { o(a: int32, p: stream @) }",
+    "interface U { o() -> @ }",
+    "interface U { o() -> stream @ }",
+    "interface U { o() -> (x: int32, y: @) }",
+    "typealias U = @",
+    "struct U { f: Sequence<@> }",
+    "struct U { f: Dictionary<@, @> }",
+    "struct U { f: Result<@, @> }",
+    "enum U { V(f: @) }",
+    "interface U : @ {}",
+    "interface U : I, @ { o() }",
+    "enum U : @ { V }",
+];
+impl Family for TypeForms {
+    fn name(&self) -> String {
+        format!("type-forms/{} type forms x {} type positions (incl. interface base and enum underlying type)", self.forms.len(), TYPE_POSITIONS.len())
+    }
+    fn len(&self) -> u64 {
+        (self.forms.len() * TYPE_POSITIONS.len()) as u64
+    }
+    fn describe(&self, idx: u64) -> Value {
+        json!({"text": self.text(idx)})
+    }
+    fn run(&self, idx: u64) -> CaseOut {
+        let text = self.text(idx);
+        let mut out = CaseOut::new(hash_str(&text));
+        out.steps = 0;
+        out.nontrivial = true;
+        out.class = verdict_both(&[&text], &mut out, "type-forms", &|| text.clone());
+        out
+    }
+}
+impl TypeForms {
+    fn text(&self, idx: u64) -> String {
+        let f = &self.forms[(idx as usize) / TYPE_POSITIONS.len()];
+        let p = TYPE_POSITIONS[(idx as usize) % TYPE_POSITIONS.len()];
+        format!("module M\nstruct S {{ f: int32 }}\nenum E {{ A(x: int32) }}\nenum EU : uint8 {{ B }}\ncustom C\ninterface I {{}}\ntypealias AS = S\ntypealias AI = int16\ntypealias AQ = Sequence<S>\n{}\n", p.replace('@', f))
+    }
+}
+
+// ---------------------------------------------------------------------------------------------------------------
+// Doc-comment and directive soups
+
+pub struct Soups2 {
+    pub n: usize,
+}
+const DOC_ITEMS: [&str; 22] = [
+    "", " ", "text", " @param", " @param x", ": msg", " @returns", " @see", " @see X::Y", " @foo", " @", "{@link X}", "{@link", "{", "}", "{@param x}", "::", "\u{3000}x", "\t\ty", " \u{a0} z", "\r", "é{@link ::}",
+];
+const DIR_ITEMS: [&str; 20] = ["#if A", "#if", "#if (", "#if !A && B", "#if A || (B", "#elif A", "#else", "#endif", "#define A", "#define", "#undef A", "#", "# if A", "#foo", "#if A // c", "#if A /* c */", "struct P {}", "  ", "#if A &", "#endif x"];
+impl Family for Soups2 {
+    fn name(&self) -> String {
+        format!("comment-and-directive-soups/all sequences of <= {} items over 22 doc-comment fragments (as lines and within one line) and over 20 directive lines, LF and CRLF", self.n)
+    }
+    fn len(&self) -> u64 {
+        // chunk = (kind, first item)
+        (DOC_ITEMS.len() * 2 + DIR_ITEMS.len()) as u64
+    }
+    fn hang_secs(&self) -> f64 {
+        120.0
+    }
+    fn describe(&self, idx: u64) -> Value {
+        json!({"chunk": idx, "doc_items": DOC_ITEMS, "directive_items": DIR_ITEMS})
+    }
+    fn run(&self, idx: u64) -> CaseOut {
+        let mut out = CaseOut::new(hash_str(&format!("soups2-{}-{idx}", self.n)));
+        out.steps = 0;
+        out.nontrivial = true;
+        let (kind, first, items): (usize, usize, &[&str]) = if (idx as usize) < DOC_ITEMS.len() {
+            (0, idx as usize, &DOC_ITEMS)
+        } else if (idx as usize) < 2 * DOC_ITEMS.len() {
+            (1, idx as usize - DOC_ITEMS.len(), &DOC_ITEMS)
+        } else {
+            (2, idx as usize - 2 * DOC_ITEMS.len(), &DIR_ITEMS)
+        };
+        let mut seqs: Vec<Vec<&str>> = vec![vec![items[first]]];
+        let mut layer = seqs.clone();
+        for _ in 1..self.n {
+            let mut next = vec![];
+            for s in &layer {
+                for it in items {
+                    let mut x = s.clone();
+                    x.push(it);
+                    next.push(x);
+                }
+            }
+            seqs.extend(next.iter().cloned());
+            layer = next;
+        }
+        let mut classes = std::collections::BTreeSet::new();
+        for s in seqs {
+            for crlf in [false, true] {
+                let nl = if crlf { "\r\n" } else { "\n" };
+                let text = match kind {
+                    0 => format!("module M{nl}{}{nl}interface I {{{nl}  /// ok{nl}  op(a: int32) -> int32{nl}}}", s.iter().map(|l| format!("///{l}")).collect::<Vec<_>>().join(nl)),
+                    1 => format!("module M{nl}///{}{nl}struct S {{}}{nl}", s.join("")),
+                    _ => format!("module M{nl}{}{nl}struct Z {{}}", s.join(nl)),
+                };
+                // doc comments attach to the next definition: for kind 0 the comment documents interface I
+                let c = verdict_both(&[&text], &mut out, "comment-and-directive-soups", &|| text.clone());
+                classes.insert(c);
+            }
+            if out.violations.len() > 6 {
+                break;
+            }
+        }
+        out.class = format!("kind{kind}:{}classes", classes.len().min(9));
+        let mut seen = std::collections::HashSet::new();
+        out.violations.retain(|v| seen.insert(v.sig.clone()));
+        out
+    }
+}
+
+// ---------------------------------------------------------------------------------------------------------------
+// Cost growth
+
+pub const GROWTH_FAMILIES: [&str; 13] = [
+    "layered-dag-width-2", "layered-dag-width-3", "fan-in-dag", "deep-sequence-nesting", "deep-parenthesised-if", "deep-if-nesting", "long-alias-chain", "inheritance-lattice-width-2", "many-fields", "many-definitions", "long-doc-comment", "layered-dag-with-back-edge",
+    "deep-dictionary-value-nesting",
+];
+
+pub fn growth_instance(fam: usize, size: usize) -> String {
+    let mut s = String::from("module G\n");
+    match GROWTH_FAMILIES[fam] {
+        "layered-dag-width-2" => {
+            for i in 0..size {
+                s.push_str(&format!("struct S{i} {{ a: S{} b: S{} }}\n", i + 1, i + 1));
+            }
+            s.push_str(&format!("struct S{size} {{}}\n"));
+        }
+        "layered-dag-width-3" => {
+            for i in 0..size {
+                for w in 0..3 {
+                    s.push_str(&format!("struct L{i}w{w} {{ a: L{}w0 b: L{}w1 c: L{}w2? }}\n", i + 1, i + 1, i + 1));
+                }
+            }
+            for w in 0..3 {
+                s.push_str(&format!("struct L{size}w{w} {{}}\n"));
+            }
+        }
+        "fan-in-dag" => {
+            for i in 0..size {
+                let fields: Vec<String> = (i + 1..size).map(|j| format!("f{j}: F{j}")).collect();
+                s.push_str(&format!("struct F{i} {{ {} }}\n", fields.join(" ")));
+            }
+        }
+        "deep-sequence-nesting" => {
+            s.push_str(&format!("struct D {{ a: {}int32{} }}\n", "Sequence<".repeat(size), ">".repeat(size)));
+        }
+        "deep-dictionary-value-nesting" => {
+            s.push_str(&format!("typealias D = {}string{}\n", "Dictionary<int32, ".repeat(size), ">".repeat(size)));
+        }
+        "deep-parenthesised-if" => {
+            s.push_str(&format!("#if {}A{}\nstruct P {{}}\n#endif\n", "(".repeat(size), ")".repeat(size)));
+        }
+        "deep-if-nesting" => {
+            for _ in 0..size {
+                s.push_str("#if !A\n");
+            }
+            s.push_str("struct P {}\n");
+            for _ in 0..size {
+                s.push_str("#endif\n");
+            }
+        }
+        "long-alias-chain" => {
+            for i in 0..size {
+                s.push_str(&format!("typealias A{i} = A{}\n", i + 1));
+            }
+            s.push_str(&format!("typealias A{size} = int32\nstruct U {{ a: A0 b: Sequence<A0> }}\n"));
+        }
+        "inheritance-lattice-width-2" => {
+            s.push_str("interface I0a { o0a() }\ninterface I0b { o0b() }\n");
+            for i in 1..=size {
+                s.push_str(&format!("interface I{i}a : I{}a, I{}b {{ o{i}a() }}\ninterface I{i}b : I{}a, I{}b {{ o{i}b() }}\n", i - 1, i - 1, i - 1, i - 1));
+            }
+        }
+        "many-fields" => {
+            let fields: Vec<String> = (0..size).map(|i| format!("f{i}: int32")).collect();
+            s.push_str(&format!("struct Big {{ {} }}\n", fields.join(" ")));
+        }
+        "many-definitions" => {
+            for i in 0..size {
+                s.push_str(&format!("struct D{i} {{}}\n"));
+            }
+        }
+        "long-doc-comment" => {
+            for i in 0..size {
+                s.push_str(&format!("/// line {i} {{@link X{i}}}\n"));
+            }
+            s.push_str("struct Doc {}\n");
+        }
+        "layered-dag-with-back-edge" => {
+            for i in 0..size {
+                s.push_str(&format!("struct C{i} {{ a: C{} b: C{}? }}\n", i + 1, i + 1));
+            }
+            s.push_str(&format!("struct C{size} {{ back: Sequence<C0> }}\n"));
+        }
+        _ => unreachable!(),
+    }
+    s
+}
+
+pub struct Growth {
+    instances: Vec<(usize, usize)>,
+}
+impl Growth {
+    pub fn new(include_cyclic_dense: bool, max_size_cyclic: usize) -> Self {
+        let mut instances = vec![];
+        for fam in 0..GROWTH_FAMILIES.len() {
+            let cyclic = GROWTH_FAMILIES[fam] == "layered-dag-with-back-edge";
+            if cyclic && !include_cyclic_dense {
+                continue;
+            }
+            let mut size = 2;
+            loop {
+                if growth_instance(fam, size).len() > 8192 {
+                    break;
+                }
+                if cyclic && size > max_size_cyclic {
+                    break;
+                }
+                instances.push((fam, size));
+                size *= 2;
+            }
+            // the largest size that still fits in 8 KiB
+            let (mut lo, mut hi) = (size / 2, size);
+            while lo + 1 < hi {
+                let mid = (lo + hi) / 2;
+                if growth_instance(fam, mid).len() <= 8192 {
+                    lo = mid;
+                } else {
+                    hi = mid;
+                }
+            }
+            if !cyclic && instances.last() != Some(&(fam, lo)) {
+                instances.push((fam, lo));
+            }
+        }
+        Growth { instances }
+    }
+}
+impl Family for Growth {
+    fn name(&self) -> String {
+        format!("cost-growth/{} families, sizes doubling up to 8 KiB, each instance timed alone ({} instances)", self.instances.iter().map(|i| i.0).collect::<std::collections::BTreeSet<_>>().len(), self.instances.len())
+    }
+    fn len(&self) -> u64 {
+        self.instances.len() as u64
+    }
+    fn hang_secs(&self) -> f64 {
+        45.0
+    }
+    fn crash_sig(&self, idx: u64, how: &str) -> String {
+        let (fam, _) = self.instances[idx as usize];
+        format!("c01/cost-growth/{}/{}", GROWTH_FAMILIES[fam], how.replace("hang", "no-verdict-within-45s"))
+    }
+    fn describe(&self, idx: u64) -> Value {
+        let (fam, size) = self.instances[idx as usize];
+        let t = growth_instance(fam, size);
+        json!({"family": GROWTH_FAMILIES[fam], "size": size, "bytes": t.len(), "text_head": truncate(&t, 300)})
+    }
+    fn run(&self, idx: u64) -> CaseOut {
+        let (fam, size) = self.instances[idx as usize];
+        let text = growth_instance(fam, size);
+        let mut out = CaseOut::new(hash_str(&text));
+        out.steps = 0;
+        out.nontrivial = true;
+        let name = format!("cost-growth/{}", GROWTH_FAMILIES[fam]);
+        out.class = format!("{}:{}", GROWTH_FAMILIES[fam], verdict_both(&[&text], &mut out, &name, &|| format!("family {} size {size} ({} bytes)\n{}", GROWTH_FAMILIES[fam], text.len(), truncate(&text, 400))));
+        out
+    }
+}
+
+// ---------------------------------------------------------------------------------------------------------------
+// Process level: option product
+
+const FILESETS: usize = 11;
+const OPT_D: [Option<&[&str]>; 5] = [None, Some(&[""]), Some(&["A"]), Some(&["é"]), Some(&["A", "A", "B"])];
+const OPT_A: [Option<&str>; 5] = [None, Some("All"), Some("deprecated"), Some(""), Some("bogus")];
+const OPT_G: [Option<&str>; 6] = [None, Some(""), Some(","), Some("="), Some("{gen0},k=v"), Some("{work}/missing-generator")];
+const OPT_FMT: [Option<&str>; 6] = [None, Some("human"), Some("json"), Some("JSON"), Some(""), Some("bogus")];
+
+pub struct BinaryOptions {
+    vectors: Vec<[usize; 6]>,
+}
+impl BinaryOptions {
+    pub fn new(max_deviations: usize) -> Self {
+        let radices = [5usize, 5, 6, 2, 6, 2];
+        let mut vectors = vec![];
+        let total: usize = radices.iter().product();
+        for mut i in 0..total {
+            let mut v = [0usize; 6];
+            for (k, r) in radices.iter().enumerate() {
+                v[k] = i % r;
+                i /= r;
+            }
+            if v.iter().filter(|x| **x != 0).count() <= max_deviations {
+                vectors.push(v);
+            }
+        }
+        BinaryOptions { vectors }
+    }
+}
+impl Family for BinaryOptions {
+    fn name(&self) -> String {
+        format!("binary-options/11 file-set shapes x {} option vectors over -D, -A, -G, --dry-run, --diagnostic-format, --disable-color (incl. empty strings)", self.vectors.len())
+    }
+    fn len(&self) -> u64 {
+        (self.vectors.len() * FILESETS) as u64
+    }
+    fn hang_secs(&self) -> f64 {
+        60.0
+    }
+    fn describe(&self, idx: u64) -> Value {
+        let sc = self.scenario(idx);
+        json!({"argv": sc.argv, "files": sc.tree.iter().map(|(n, _)| n.clone()).collect::<Vec<_>>()})
+    }
+    fn run(&self, idx: u64) -> CaseOut {
+        let sc = self.scenario(idx);
+        let mut out = CaseOut::new(hash_str(&format!("c01bin{:?}{idx}", self.vectors.len())));
+        out.nontrivial = true;
+        let obs = run(&sc, Duration::from_secs(10));
+        let desc = || format!("argv {:?}\nexit {:?} signal {:?} timed_out {}\nstderr {}", obs.argv, obs.exit_code, obs.signal, obs.timed_out, show_bytes(&obs.stderr));
+        if obs.timed_out {
+            out.violate("c01/binary-options/hang", desc());
+        } else if let Some(loc) = obs.panic_location() {
+            out.violate(format!("c01/binary-options/panic@{loc}"), desc());
+        } else if obs.signal.is_some() {
+            out.violate("c01/binary-options/killed-by-signal", desc());
+        } else if !matches!(obs.exit_code, Some(0) | Some(1) | Some(2)) {
+            out.violate("c01/binary-options/exit-status", desc());
+        }
+        out.class = format!("exit{:?}", obs.exit_code);
+        out
+    }
+}
+impl BinaryOptions {
+    fn scenario(&self, idx: u64) -> Scenario {
+        let fs = (idx as usize) % FILESETS;
+        let v = self.vectors[(idx as usize) / FILESETS];
+        let mut sc = Scenario::default();
+        let file = |n: &str, t: &str| (n.to_string(), crate::proc::Node::File(t.as_bytes().to_vec()));
+        let valid = "module M\nstruct S { a: int32 }\n";
+        let mut argv: Vec<String> = vec![];
+        match fs {
+            0 => {}
+            1 => {
+                sc.tree.push(file("a.slice", ""));
+                argv.push("a.slice".into());
+            }
+            2 => {
+                sc.tree.push(file("a.slice", "module M\n"));
+                argv.push("a.slice".into());
+            }
+            3 => {
+                sc.tree.push(file("a.slice", valid));
+                argv.push("a.slice".into());
+            }
+            4 => {
+                sc.tree.push(file("a.slice", "module M\n[deprecated] struct D {}\nstruct U { d: D }\n"));
+                argv.push("a.slice".into());
+            }
+            5 => {
+                sc.tree.push(file("a.slice", "module M\nstruct {\n"));
+                argv.push("a.slice".into());
+            }
+            6 => {
+                sc.tree.push(("adir".into(), crate::proc::Node::Dir));
+                argv.push("adir".into());
+            }
+            7 => argv.push("missing.slice".into()),
+            8 => {
+                sc.tree.push(file("notes.txt", valid));
+                argv.push("notes.txt".into());
+            }
+            9 => {
+                sc.tree.push(file("a.slice", valid));
+                sc.tree.push(file("b.slice", "module N\nstruct T { s: M::S }\n#if X\nstruct OnlyWithX {}\n#endif\n"));
+                if idx % 2 == 0 {
+                    argv.extend(["a.slice".to_string(), "-R".into(), "b.slice".into()]);
+                } else {
+                    argv.extend(["b.slice".to_string(), "a.slice".into()]);
+                }
+            }
+            _ => {
+                sc.tree.push(file("a.slice", valid));
+                argv.extend(["a.slice".to_string(), "./a.slice".into(), "-R".into(), "a.slice".into()]);
+            }
+        }
+        if let Some(ds) = OPT_D[v[0]] {
+            for d in ds {
+                argv.push("-D".into());
+                argv.push(d.to_string());
+            }
+        }
+        if let Some(a) = OPT_A[v[1]] {
+            argv.push("-A".into());
+            argv.push(a.to_string());
+        }
+        if let Some(g) = OPT_G[v[2]] {
+            argv.push("-G".into());
+            argv.push(g.to_string());
+            sc.gens.push(Gen { name: "gen".into(), install: Install::Script(Script(vec![Step::ReadAll, Step::Stdout(encode_reply(&[], &[])), Step::Exit(0)])) });
+        }
+        if v[3] == 1 {
+            argv.push("--dry-run".into());
+        }
+        if let Some(f) = OPT_FMT[v[4]] {
+            argv.push("--diagnostic-format".into());
+            argv.push(f.to_string());
+        }
+        if v[5] == 1 {
+            argv.push("--disable-color".into());
+        }
+        sc.argv = argv;
+        sc
+    }
+}
+
+pub fn families(tier: &str) -> Vec<Box<dyn Family>> {
+    let quick = tier == "quick";
+    let mut v: Vec<Box<dyn Family>> = vec![
+        Box::new(Growth::new(!quick, 16)),
+        Box::new(TypeForms::new()),
+        Box::new(Soups2 { n: if quick { 2 } else { 3 } }),
+        Box::new(BinaryOptions::new(if quick { 2 } else { 6 })),
+        Box::new(TokenSoups::new(if quick { 2 } else { 3 }, 0..10)),
+        Box::new(TokenMutations::new()),
+        Box::new(CharMutations::new(false)),
+        Box::new(TokenSoups::new(if quick { 3 } else { 4 }, 0..2)),
+    ];
+    if !quick {
+        v.push(Box::new(CharMutations::new(true)));
+    }
+    v
 }
